@@ -19,6 +19,8 @@ pub mod c13;
 #[cfg(feature = "full")]
 pub mod c14;
 #[cfg(feature = "full")]
+pub mod c15;
+#[cfg(feature = "full")]
 pub mod c16;
 #[cfg(feature = "full")]
 pub mod c26;
@@ -62,6 +64,7 @@ pub fn all() -> Vec<Property> {
         v.push(Property { id: "C11", level: "exploration", build: c11::build });
         v.push(Property { id: "C13", level: "exploration", build: c13::build });
         v.push(Property { id: "C14", level: "exploration", build: c14::build });
+        v.push(Property { id: "C15", level: "exploration", build: c15::build });
         v.push(Property { id: "C16", level: "exploration", build: c16::build });
         v.push(Property { id: "C26", level: "exploration", build: c26::build });
         v.push(Property { id: "C30", level: "exploration", build: c30::build });
